@@ -1792,16 +1792,11 @@ def r4(ctx):
 
     # timer
     ar = repo.fn("InterceptingLLUDPProxyProtocol.attempt_resends")
-    cs = find_calls(ar.node, "resend_unacked")
-    okt = False
-    for c in cs:
-        anc = list(ancestors(c))
-        in_for = any(isinstance(a, (ast.For, ast.AsyncFor)) and (ap(a.iter) or "").endswith("session.regions") for a in anc)
-        in_while = any(isinstance(a, ast.While) for a in anc)
-        okt = okt or (in_for and in_while)
+    okt = timer_drives(repo, ar)
     ctx.ob("C05.R4", "attempt_resends drives resend_unacked for every region of the session, forever", okt, ar.where,
            "no periodic resend of unacknowledged injected packets")
     check_register_after_send(ctx, "C05.R4")
+    check_region_calls_keep_table(ctx, "C05.R4")
     check_resend_survives(ctx, "C05.R4", ar, "attempt_resends")
     check_poll_ungated(ctx, "C05.R4", ar, "attempt_resends",
                        "CloseCircuit / DisableSimulator mark the circuit dead while it keeps forwarding and send_reliable() "
@@ -1876,6 +1871,60 @@ class Emit:
         self.args = [msg] if msg is not None else []
 
 
+def inline_stmt_helpers(repo, fi: FuncInfo) -> FuncInfo:
+    """fi with every statement `self.h(a, b)` - h a short method of the own class without return / yield, handed plain
+    names or attribute paths - replaced by h's body, parameters substituted.  The per-entry work of a loop that
+    was split into step methods reads like the unsplit loop again.  fi itself when nothing was inlined."""
+    from ..core import set_parents
+    done = [0]
+    caller_names = {n.id for n in walk(fi.node) if isinstance(n, ast.Name)} | {a.arg for a in fi.node.args.args}
+
+    def body_of(call):
+        h = resolve_method_call(repo, fi, call)
+        if h is None or h == fi or isinstance(h.node, ast.AsyncFunctionDef):
+            return None
+        if any(isinstance(x, (ast.Return, ast.Yield, ast.YieldFrom, ast.Await)) for x in walk(h.node)):
+            return None
+        stmts = [x for x in h.node.body if not (isinstance(x, ast.Expr) and isinstance(x.value, ast.Constant))]
+        if not stmts or len(stmts) > 12 or call.keywords and any(k.arg is None for k in call.keywords):
+            return None
+        params = method_params(h)
+        amap = {params[i]: a for i, a in enumerate(call.args) if i < len(params)}
+        amap.update({k.arg: k.value for k in call.keywords if k.arg})
+        if set(amap) != set(params) or any(ap(a) is None for a in amap.values()):
+            return None
+        rebound = {st.path for st in stores(h.node, into_defs=False) if "." not in st.path and "[" not in st.path}
+        if rebound & (set(params) | caller_names):
+            return None
+        return [clone(x, lambda n: clone(amap[n.id]) if isinstance(n, ast.Name) and n.id in amap else None) for x in stmts]
+
+    def rewrite(stmts):
+        out = []
+        for st in stmts:
+            if isinstance(st, ast.Expr) and isinstance(st.value, ast.Call):
+                b = body_of(st.value)
+                if b is not None:
+                    done[0] += 1
+                    out.extend(b)
+                    continue
+            new = clone(st, lambda n: None)
+            for fld in ("body", "orelse", "finalbody"):
+                if isinstance(getattr(st, fld, None), list) and not isinstance(st, (ast.FunctionDef, ast.AsyncFunctionDef, ast.ClassDef)):
+                    setattr(new, fld, rewrite(getattr(st, fld)))
+            if isinstance(st, ast.Try):
+                for hn, ho in zip(new.handlers, st.handlers):
+                    hn.body = rewrite(ho.body)
+            out.append(new)
+        return out
+    node = clone(fi.node, lambda n: None)
+    node.body = rewrite(fi.node.body)
+    if not done[0]:
+        return fi
+    ast.fix_missing_locations(node)
+    set_parents(node)
+    return FuncInfo(fi.name, fi.qual, fi.module, node, fi.cls, fi.parent_fn)
+
+
 def resend_core(repo, cr: FuncInfo):
     """(function holding the loop over the unacked table, emits, consumer problems).  The loop may live in a
     generator (own method or collaborator) that resend_unacked iterates, sending each item."""
@@ -1886,6 +1935,12 @@ def resend_core(repo, cr: FuncInfo):
         direct = [Emit(c, c.args[0] if c.args else None) for c in find_calls(cr.node, "_send_prepared_message", into_defs=False)]
         if direct:
             return cr, direct, [], None
+        # the steps of the per-entry work (give up / resend) may be methods the loop body calls one after the other
+        ci = inline_stmt_helpers(repo, cr)
+        if ci is not cr:
+            direct = [Emit(c, c.args[0] if c.args else None) for c in find_calls(ci.node, "_send_prepared_message", into_defs=False)]
+            if direct:
+                return ci, direct, [], None
         # the per-entry work (budget, give-up, resend) may be a helper that is handed the entry: one call of it
         # is one iteration of the loop, the conditions at the call site still dominate
         for loop in table_loops(cr):
@@ -2188,6 +2243,85 @@ def check_register_after_send(ctx, rule):
                "it again and skips the entries behind it")
 
 
+def check_region_calls_keep_table(ctx, rule):
+    """What the packet handler does to a region because of the traffic it forwards (mark_dead on CloseCircuit /
+    DisableSimulator, ...) must not drop the circuit's unacked table: the circuit keeps forwarding, the entries'
+    futures would never complete and nothing would be retransmitted (only disconnect(), the proxy's own
+    teardown, clears it)."""
+    repo = ctx.repo
+    hp = repo.fn("InterceptingLLUDPProxyProtocol.handle_proxied_packet")
+    rvar = lookup_var(hp, "region_by_circuit_addr")
+    rcls = repo.cls("ProxiedRegion")
+    fns = [hp] + [f for f in class_methods_reachable(repo, hp, depth=2) if f != hp and f.cls is not None and f.cls == hp.cls]
+    n = 0
+    for f in fns:
+        for c in calls(f.node, into_defs=False):
+            fu = c.func
+            if not (isinstance(fu, ast.Attribute) and isinstance(fu.value, ast.Name) and
+                    (fu.value.id == rvar or fu.value.id == "region")):
+                continue
+            m = repo.lookup_method(rcls, fu.attr)
+            if m is None:
+                continue
+            n += 1
+            seen, todo, bad = set(), [m], []
+            while todo and len(seen) < 12:
+                g = todo.pop()
+                if g.full in seen:
+                    continue
+                seen.add(g.full)
+                for st in stores(g.node, into_defs=False):
+                    if is_table(repo, st.path) and (st.kind in ("assign", "delitem", "del") or
+                                                    (st.kind == "mutcall" and st.method in ("clear", "pop", "popitem"))):
+                        bad.append(f"{g.qual}: {norm(st.node)}")
+                for c2 in calls(g.node, into_defs=False):
+                    f2 = c2.func
+                    if isinstance(f2, ast.Attribute) and f2.attr == "disconnect" and (ap(f2.value) or "").endswith("circuit"):
+                        bad.append(f"{g.qual}: {norm(c2)}")
+                    # super().m() / self.m(): stay inside the region classes
+                    if isinstance(f2, ast.Attribute) and g.cls is not None and \
+                            ((isinstance(f2.value, ast.Call) and ap(f2.value.func) == "super") or ap(f2.value) == "self"):
+                        for k in repo.mro(g.cls):
+                            if f2.attr in k.methods and k.methods[f2.attr].full not in seen:
+                                todo.append(k.methods[f2.attr])
+            ctx.ob(rule, f"handle_proxied_packet: {norm(c)} leaves the circuit's unacked table alone", not bad, ctx.w(f, c),
+                   f"{bad}: the circuit object keeps forwarding after CloseCircuit / DisableSimulator, but the reliable packets the "
+                   f"proxy injected on it are forgotten - never retransmitted, their completion futures never fire (and "
+                   f"packet_id_base restarts under a live translation state)")
+    ctx.stats[f"{rule}.region calls checked for table loss"] = n
+
+
+def timer_polls(repo, timer: FuncInfo):
+    """[(function holding the `<circuit>.resend_unacked()` call, that call, call in the timer coroutine through which
+    it is reached or None)]: the poll may sit in the timer itself or in a synchronous pass method of its class."""
+    out = [(timer, c, None) for c in find_calls(timer.node, "resend_unacked")]
+    for hc in calls(timer.node, into_defs=False):
+        h = resolve_method_call(repo, timer, hc)
+        if h is None or h == timer:
+            continue
+        inner = find_calls(h.node, "resend_unacked")
+        if not inner:
+            for hc2 in calls(h.node, into_defs=False):
+                h2 = resolve_method_call(repo, h, hc2)
+                if h2 is not None and h2 not in (h, timer) and find_calls(h2.node, "resend_unacked"):
+                    h, inner = h2, find_calls(h2.node, "resend_unacked")
+                    break
+        out.extend((h, c, hc) for c in inner)
+    return out
+
+
+def timer_drives(repo, timer: FuncInfo) -> bool:
+    """Some poll runs for every region of the session (for loop over session.regions around the call) on every
+    turn of the timer's loop (the call, or the pass method holding it, sits in a while loop of the timer)."""
+    for f, c, via in timer_polls(repo, timer):
+        in_for = any(isinstance(a, (ast.For, ast.AsyncFor)) and (ap(a.iter) or "").endswith("session.regions") for a in ancestors(c))
+        top = via if via is not None else c
+        in_while = any(isinstance(a, ast.While) for a in ancestors(top))
+        if in_for and in_while:
+            return True
+    return False
+
+
 def check_resend_survives(ctx, rule, timer: FuncInfo, label: str):
     """An exception out of one retransmission (serializer, transport) is contained somewhere between the
     emitting call and the timer loop, and the timer loop goes on."""
@@ -2204,7 +2338,11 @@ def check_resend_survives(ctx, rule, timer: FuncInfo, label: str):
         levels.append((outer[0], [outer[1]], False))
     if cr != cr0:
         levels.append((cr0, list(calls(cr0.node, into_defs=False)), False))
-    levels.append((timer, find_calls(timer.node, "resend_unacked"), True))
+    polls = timer_polls(repo, timer)
+    for f_, c_, via_ in polls:
+        if via_ is not None:
+            levels.append((f_, [c_], False))
+    levels.append((timer, [via_ if via_ is not None else c_ for _f, c_, via_ in polls], True))
     contained = False
     for f, cs, is_timer in levels:
         if not cs:
@@ -2242,23 +2380,24 @@ def check_poll_ungated(ctx, rule, timer: FuncInfo, label: str, why: str):
     repo = ctx.repo
     tn = set(table_names(repo))
 
-    def parts_of(e, depth=0):
+    def parts_of(e, depth=0, fn=None):
+        fn = fn or timer
         out = [e]
         if depth < 3:
             for n in ast.walk(e):
                 if isinstance(n, ast.Name):
-                    v = single_assign(timer.node, n.id)
+                    v = single_assign(fn.node, n.id)
                     if v is not None:
-                        out.extend(parts_of(v, depth + 1))
+                        out.extend(parts_of(v, depth + 1, fn))
         return out
-    for c in find_calls(timer.node, "resend_unacked"):
+    for f_, c, via in timer_polls(repo, timer):
         gated = []
-        for e, pol in facts(c, timer.node):
-            attrs = {n.attr for p_ in parts_of(e) for n in ast.walk(p_) if isinstance(n, ast.Attribute)}
+        for e, pol in facts(c, f_.node) + (facts(via, timer.node) if via is not None else []):
+            attrs = {n.attr for p_ in parts_of(e, 0, f_) for n in ast.walk(p_) if isinstance(n, ast.Attribute)}
             if _alive_names(repo, attrs) and not (attrs & tn):
                 gated.append(("" if pol else "not ") + norm(e))
         ctx.ob(rule, f"{label}: resend_unacked is polled whether or not the circuit is marked alive", not gated,
-               ctx.w(timer, c), f"the poll depends on {gated}: {why}")
+               ctx.w(f_, c), f"the poll depends on {gated}: {why}")
 
 
 def _in_same_block(stmt, node) -> bool:
@@ -2765,7 +2904,20 @@ def r9(ctx):
     makers = [f for f in repo.all_funcs if f.module is pmod and f.parent_fn is None
               and not (f.cls is not None and f.cls.name == "InjectionTracker")]
     for f in makers:
-        for c in find_calls(f.node, "InjectionTracker", into_defs=True):
+        # the class may be reached through a local / parameter that stands for it (`factory = InjectionTracker`, a
+        # parameter defaulting to the class): calling that is a construction with the same arguments
+        alias = {st.path for st in stores(f.node, into_defs=False) if st.kind == "assign" and "." not in st.path
+                 and st.value is not None and ap(st.value) == "InjectionTracker"}
+        fa = f.node.args
+        for a_, d_ in zip(fa.args[len(fa.args) - len(fa.defaults):], fa.defaults):
+            if ap(d_) == "InjectionTracker":
+                alias.add(a_.arg)
+        for a_, d_ in zip(fa.kwonlyargs, fa.kw_defaults):
+            if d_ is not None and ap(d_) == "InjectionTracker":
+                alias.add(a_.arg)
+        built = list(find_calls(f.node, "InjectionTracker", into_defs=True)) + \
+            [c for c in calls(f.node, into_defs=False) if isinstance(c.func, ast.Name) and c.func.id in alias]
+        for c in built:
             n += 1
             arg = c.args[pos] if len(c.args) > pos else next((k.value for k in c.keywords if k.arg == "maxlen"), None)
             if arg is None:
